@@ -195,7 +195,11 @@ func corrTasks(r *hx.Rand, o *hx.Opts) []*task {
 		{"0", "0"}, {"0", "5"}, {"0", "-5"}, {"5", "0"}, {"2", "0.5"}, {"-8", "0.5"}, {"9", "-0.5"}, {"2", "-100001"}, {"99", "-50001"}, {"99", "-50000"}, {"3", "-200"}, {"1E3", "3"}, {"1E3", "101"}, {"1E-100", "1.5"},
 		{"1234567890123456789012345678901234567890123456789012345678901234", "0.5"}, {"12345678901234567890123456789012345678901234567890123456789012345", "0.5"}, {"2", "1E3"}, {"2", "2.0"}, {"1.0", "200"},
 		{"2", "100000"}, {"2", "100001"}, {"10", "50000"}, {"10", "50001"}, {"99", "50001"}, {"1", "100000000000000000000"}, {"-1", "100000000000000000001"}, {"7", "100001.5"},
-		{"0.10", "60000"}, {"0.1", "60000"}, {"0.10", "3"}, {"10.0", "-3"}, {"10.0", "-60000"}, {"1E3", "2"}, {"1E3", "40"}, {"2.50", "0.5"}, {"0.00", "0"}, {"0.00", "2"}, {"100.00", "2"}, {"-2.500", "3"}} {
+		{"0.10", "60000"}, {"0.1", "60000"}, {"0.10", "3"}, {"10.0", "-3"}, {"10.0", "-60000"}, {"1E3", "2"}, {"1E3", "40"}, {"2.50", "0.5"}, {"0.00", "0"}, {"0.00", "2"}, {"100.00", "2"}, {"-2.500", "3"},
+		// the size limit looks at the MAGNITUDE of the base: negative whole bases at and over digits x power = 100000,
+		// for positive and negative powers (-1 never grows)
+		{"-2", "100000"}, {"-2", "100001"}, {"-10", "50000"}, {"-10", "50001"}, {"-99", "50001"}, {"-2", "-100000"}, {"-2", "-100001"}, {"-7", "999999999"},
+		{"-2", "99999999999"}, {"-2.0", "100001"}, {"-20", "50001"}, {"-3", "-999999999"}, {"-1", "-100000000000000000001"}, {"-1.0", "999999999"}, {"-123456789", "11112"}} {
 		addCall("op", "op:^", []VSpec{named(pair[0], vNum(pair[0])), named(pair[1], vNum(pair[1]))})
 	}
 	// products whose decimal exponent leaves +-100000 (maxNumberExponent) are error values (whole numbers have
